@@ -23,11 +23,15 @@ pub fn gen_cfg(prop: &str, rng: &mut Rng) -> GenCfg {
             c.intern = vec![Sym::K1, Sym::K2, Sym::R, Sym::Imm];
             c.on_sym = true;
             c.max_nodes = 10;
+            c.lru_makers = true;
+            c.durabilities = rng.chance(1, 3);
+            c.dur_profile = c.durabilities;
         }
         "C02" => {
             c.kinds = vec![(Kind::Plain, 6), (Kind::NoEq, 1), (Kind::Multi, 1)];
             c.durabilities = true;
             c.never = true;
+            c.dur_profile = true;
             c.makers = rng.chance(1, 2);
             c.accumulate = rng.chance(1, 3);
             c.accum_reqs = c.accumulate;
@@ -68,6 +72,7 @@ pub fn gen_cfg(prop: &str, rng: &mut Rng) -> GenCfg {
             c.kinds = vec![(Kind::Plain, 6)];
             c.makers = true;
             c.entries_reqs = true;
+            c.lru_makers = true;
             c.vmod = 3;
         }
         "C07" => {
@@ -76,6 +81,7 @@ pub fn gen_cfg(prop: &str, rng: &mut Rng) -> GenCfg {
             c.intern = vec![Sym::K1, Sym::K1, Sym::K2, Sym::K3];
             c.on_sym = true;
             c.intern_reqs = true;
+            c.lru_makers = true;
             c.vmod = 5;
             c.hist_len = (30, 70);
         }
@@ -93,6 +99,8 @@ pub fn gen_cfg(prop: &str, rng: &mut Rng) -> GenCfg {
             c.makers = true;
             c.specify = true;
             c.spec_panics = true;
+            c.durabilities = rng.chance(1, 2);
+            c.dur_profile = c.durabilities;
             c.vmod = 3;
         }
         "C11" => {
